@@ -75,6 +75,21 @@ impl Default for LocalSchemeManager {
     }
 }
 
+/// Escape a string so that it can be placed between the double quotes of a Scheme string literal
+/// and read back as exactly the same string.
+pub fn scheme_escape(input: &str) -> String {
+    let mut out = String::with_capacity(input.len());
+    for c in input.chars() {
+        match c {
+            '"' => out.push_str("\\\""),
+            '\\' => out.push_str("\\\\"),
+            c if c.is_control() => out.push_str(&format!("\\x{:x};", c as u32)),
+            c => out.push(c),
+        }
+    }
+    out
+}
+
 fn is_pattern(input: &str) -> bool {
     input.contains('?') | input.contains('*') | input.contains('[')
 }
@@ -132,7 +147,8 @@ impl LocalSchemeManager {
         if self.files.get(&filename).is_none() {
             self.vars.push(format!(
                 "(%lf3:port:{} (open-file \"{}\" \"w\"))",
-                self.var_index, filename,
+                self.var_index,
+                scheme_escape(&filename),
             ));
             self.fini
                 .push(format!("(close-port %lf3:port:{})", self.var_index));
@@ -165,8 +181,9 @@ impl LocalSchemeManager {
             return *existing_id;
         }
 
+        let escaped = scheme_escape(pattern);
         self.vars.push(format!(
-            "(%lf3:match:{} (lambda (%lf3:str:{}) ({matcher}? \"{pattern}\" %lf3:str:{})))",
+            "(%lf3:match:{} (lambda (%lf3:str:{}) ({matcher}? \"{escaped}\" %lf3:str:{})))",
             self.var_index + 1,
             self.var_index,
             self.var_index
@@ -298,8 +315,9 @@ impl DistributedSchemeManager {
             return *existing_id;
         }
 
+        let escaped = scheme_escape(pattern);
         self.vars.push(format!(
-            "(%lf3:match:{} (lambda (%lf3:str:{}) ({matcher}? \"{pattern}\" %lf3:str:{})))",
+            "(%lf3:match:{} (lambda (%lf3:str:{}) ({matcher}? \"{escaped}\" %lf3:str:{})))",
             self.var_index + 1,
             self.var_index,
             self.var_index
